@@ -1,6 +1,11 @@
 """C11 — Equal is JSON value equality."""
+import sys
+
 from .. import gen_values as gv
 from ..wire import canon
+
+if hasattr(sys, "set_int_max_str_digits"):
+    sys.set_int_max_str_digits(0)      # huge_number_case: the oracle (Fraction) reads integers of 10^4 digits
 
 ID = "C11"
 N_QUICK = 20000
@@ -13,6 +18,8 @@ RULE += (". Widened: (~3%) y = the pointer to the FIRST ELEMENT of the Go array 
          "top or both boxed in []any; (~2%) pointers to ZERO-SIZE values of different types (*[0]int, *[1][0]any, *[2][0]int, … — all "
          "zero-size allocations share one address) denoting [] / [[]] / [[],[]]; (~3%) byte sequences ([N]uint8 by value, []uint8, "
          "*[N]uint8, []any) of equal and of different length, alone and inside arrays / objects")
+RULE += ("; a fixed handful (24 quick / 80 thorough) of json.Number pairs with decimal exponents around +-10^4 or 10^4 digits: one value in two "
+         "spellings, zero with a huge exponent against 0 in other representations, one-step differences")
 TRUSTED = ["harness realises descriptors with reflect (goval.go); python oracle canon() used as a third opinion"]
 ASSUMPTIONS = ["nil slices / nil maps and non-JSON kinds are outside the property's domain and are not generated here",
                "strings are valid UTF-8"]
@@ -142,8 +149,73 @@ def same_type_numbers(rng):
     return {"op": "equal", "args": {"x": x, "y": y}, "meta": {"expect": canon(j1) == canon(j2), "sametype": shape}}
 
 
+HUGE_EXPS = [9998, 9999, 10000, 10000, 10000, 10001, 10003, 12345, 20000]
+
+
+def huge_number_case(rng):
+    """Two json.Numbers with a HUGE decimal exponent or very many digits (|exponent| around 10^4: far beyond every machine format, small
+    for exact rational arithmetic): one value m * 10^(+-e) spelled in two ways (mantissa shifted against the exponent, a decimal point
+    moved, the integer written out with all its 10^4 digits, upper-case E, explicit +), a zero with such an exponent against 0 / 0.0 / an
+    int / a float64 zero, and one-step differences (exponent +-1, other sign of the exponent, mantissa +1). Equal is by mathematical
+    value. A fixed handful per run (exact rationals of 10^4 digits: cheap for a few operations, not for thousands)."""
+    e = rng.choice(HUGE_EXPS)
+    neg = rng.random() < 0.35
+    r = rng.random()
+    if r < 0.2:
+        # zero, whatever the exponent
+        a = rng.choice(["0e%d", "0E-%d", "0.0e%d", "-0e%d", "0e+%d"]) % e
+        y = rng.choice([{"t": "jnum", "v": "0"}, {"t": "jnum", "v": "0.0"}, {"t": "jnum", "v": "0e-%d" % (e + 1)}, {"t": "int", "v": "0"},
+                        {"t": "float64", "v": "0"}, {"t": "jnum", "v": "-0"}, {"t": "jnum", "v": "1e-%d" % e}, {"t": "uint8", "v": "0"}])
+        x = {"t": "jnum", "v": a}
+        jy = gv.Num(y["v"])
+    else:
+        m = rng.choice(["1", "1", "25", "7", "120", "999", "1024"])
+        sg = "-" if neg else ""
+        E = rng.choice(["e", "E", "e+"]) if not neg else rng.choice(["e-", "E-"])
+        if len(m) > 1 and rng.random() < 0.4:
+            # 2.5E+12345 for 25e12344
+            a = "%s.%s%s%d" % (m[0], m[1:], E, e + (len(m) - 1) * (-1 if neg else 1)) if not neg else "%s.%s%s%d" % (m[0], m[1:], E, e - (len(m) - 1))
+        else:
+            a = "%s%s%d" % (m, E, e)
+        k = rng.choice([1, 1, 2, 3, 17])
+        spell = rng.random()
+        if neg:
+            b = rng.choice(["%s0%s%d" % (m, "e-", e + 1), "0.%s%s%d" % (m, "E-", e - len(m)), "%s%s%d" % (m + "0" * k, "e-", e + k)])
+        elif spell < 0.35:
+            b = m + "0" * e                                  # all digits written out
+        elif spell < 0.5:
+            b = m + "0" * (e - k) + "e%d" % k                # very many digits AND an exponent
+        else:
+            b = rng.choice(["%s0e%d" % (m, e - 1), "%se%d" % (m + "0" * k, e - k), "0.%se%d" % (m, e + len(m)), "%s.0E%d" % (m, e)])
+        if neg and a.count(".") and e - (len(m) - 1) < 0:
+            return None
+        if rng.random() < 0.35:
+            # a one-step difference
+            how = rng.choice(["exp", "exp", "sign", "digit", "short"])
+            if how == "exp":
+                b = "%se%s%d" % (m, "-" if neg else "", e + rng.choice([-1, 1]))
+            elif how == "sign":
+                b = "%se%s%d" % (m, "" if neg else "-", e)
+            elif how == "digit":
+                b = "%se%s%d" % (str(int(m) + 1), "-" if neg else "", e)
+            elif not neg:
+                b = m + "0" * (e - 1)
+        x, y = {"t": "jnum", "v": a}, {"t": "jnum", "v": b}
+        jy = gv.Num(b)
+    jx = gv.Num(x["v"])
+    if rng.random() < 0.5:
+        x, y, jx, jy = y, x, jy, jx
+    for _ in range(rng.choice([0, 0, 0, 1])):
+        x, y = {"t": "[]any", "v": [x]}, {"t": "[]any", "v": [y]}
+    return {"op": "equal", "args": {"x": x, "y": y}, "meta": {"expect": canon(jx) == canon(jy), "huge": True}}
+
+
 def gen(rng, tier, n):
     ops = kind_table(rng) + boundary_table(rng)
+    for _ in range(24 if tier == "quick" else 80):
+        o = huge_number_case(rng)
+        if o is not None:
+            ops.append(o)
     for _ in range(n // 40):
         o = same_type_numbers(rng)
         if o is not None:
